@@ -14,25 +14,28 @@ type Opts struct {
 	Services    bool
 	Topics      bool
 	Entities    bool
-	Rules       bool
-	ListRules   bool
-	Descs       bool
-	OddNames    bool // acronym / digit names (no expected-model lanes)
-	EntityOnly  bool // every file gets an entity (C17)
+	// KeyEntity: entity-key annotations (foreign / primary / tenant) on key fields
+	// and key items outside entity blocks
+	KeyEntity  bool
+	Rules      bool
+	ListRules  bool
+	Descs      bool
+	OddNames   bool // acronym / digit names (no expected-model lanes)
+	EntityOnly bool // every file gets an entity (C17)
 	// OddPathParams: scalar request fields that become path parameters may get a name
 	// that does not survive camel -> snake -> camel (userID, snake_name, aB); C16
 	OddPathParams bool
 	// UndocumentedRules: rules the schema proto defines but the README does not
 	// mention (integer multipleOf, object minProperties / maxProperties); C04
 	UndocumentedRules bool
-	Noise       bool
+	Noise             bool
 	// Mask disables features that are excluded by construction because of an open
 	// finding; the key names are those used in Classes.
 	Mask map[string]bool
 }
 
 func DefaultOpts() Opts {
-	return Opts{MaxPackages: 2, MaxFiles: 2, Services: true, Topics: true, Rules: true, ListRules: true, Descs: true, Noise: true}
+	return Opts{MaxPackages: 2, MaxFiles: 2, Services: true, Topics: true, Rules: true, ListRules: true, Descs: true, Noise: true, KeyEntity: true}
 }
 
 var pkgWords = []string{"alpha", "beta", "gamma", "delta", "omega", "sigma", "kappa", "theta"}
@@ -58,7 +61,8 @@ type gen struct {
 	o       Opts
 	b       *Bundle
 	types   []*typeInfo
-	used    map[string]bool // type names per package: pkg+"."+name
+	used    map[string]bool        // type names per package: pkg+"."+name
+	derived map[string][][2]string // per package: {stem, suffix} of user types named like derived messages
 	Classes map[string]bool
 	cur     struct{ pkgIdx, fileIdx int }
 	curFile *File
@@ -118,7 +122,7 @@ func ptr[T any](v T) *T { return &v }
 
 // Draw generates a bundle.
 func Draw(t *rapid.T, o Opts) (*Bundle, map[string]bool) {
-	g := &gen{t: t, o: o, b: &Bundle{}, used: map[string]bool{}, Classes: map[string]bool{}}
+	g := &gen{t: t, o: o, b: &Bundle{}, used: map[string]bool{}, derived: map[string][][2]string{}, Classes: map[string]bool{}}
 	np := rapid.IntRange(1, max(1, o.MaxPackages)).Draw(t, "npkgs")
 	pw := rapid.Permutation(pkgWords).Draw(t, "pkgwords")
 	for i := 0; i < np; i++ {
@@ -152,6 +156,24 @@ func Draw(t *rapid.T, o Opts) (*Bundle, map[string]bool) {
 					kind = "object"
 				}
 				ti := &typeInfo{pkg: p.Name, name: g.typeName(p.Name), kind: kind, pkgIdx: pi, fileIdx: fi}
+				if (o.Services || o.Topics) && !(pi == 0 && fi == 0 && k == 0) && rapid.IntRange(0, 7).Draw(t, "derivedname") == 0 {
+					// a user type named like a message the compiler derives for the
+					// .service / .topic sub-package (<Method>Request, <Method>Response,
+					// <Name>Message): different packages, so no clash - the method or
+					// topic message that derives the same short name is drawn later
+					suffix := rapid.SampledFrom([]string{"Request", "Response", "Message"}).Draw(t, "derivedsuffix")
+					var stem string
+					if suffix == "Message" {
+						stem = rapid.SampledFrom(topicVerbs).Draw(t, "dverb") + rapid.SampledFrom(typeWords).Draw(t, "dnoun")
+					} else {
+						stem = rapid.SampledFrom(methodVerbs).Draw(t, "dverb") + rapid.SampledFrom(typeWords).Draw(t, "dnoun")
+					}
+					if !g.used[p.Name+"."+stem+suffix] {
+						g.used[p.Name+"."+stem+suffix] = true
+						ti.name = stem + suffix
+						g.derived[p.Name] = append(g.derived[p.Name], [2]string{stem, suffix})
+					}
+				}
 				if kind == "enum" {
 					ti.enum = g.enumBody(ti.name, ti.name)
 				}
@@ -342,6 +364,17 @@ func (g *gen) scalarType() *Type {
 				ty.KeyPattern = rapid.SampledFrom(patternPool).Draw(t, "keypattern")
 			}
 			g.cls("key:" + ty.Format)
+			if g.o.KeyEntity && rapid.IntRange(0, 2).Draw(t, "keyentity") == 0 {
+				// a key outside an entity block may still point at an entity
+				if rapid.Bool().Draw(t, "keyforeign") {
+					ty.KeyForeign = g.curPkg.Name + "." + rapid.SampledFrom(typeWords).Draw(t, "keyfkent")
+					g.cls("key-entity:foreign")
+				}
+				if rapid.IntRange(0, 2).Draw(t, "keytenant") == 0 {
+					ty.KeyTenant = rapid.SampledFrom([]string{"account", "org"}).Draw(t, "keytenantv")
+					g.cls("key-entity:tenant")
+				}
+			}
 		case "any":
 			if rapid.Bool().Draw(t, "anydefined") {
 				ty.AnyOnlyDefined = true
@@ -644,6 +677,11 @@ func (g *gen) fields(n, depth int, objectOnly bool) []*Field {
 		f := &Field{Name: g.fieldName(taken), Desc: g.desc()}
 		f.Type = g.fieldType(depth, objectOnly, !objectOnly, f.Name)
 		sibling := g.shadow(f, taken, objectOnly)
+		if g.o.KeyEntity && !objectOnly && f.Type.Kind == "key" && f.Type.KeyForeign == "" && rapid.IntRange(0, 5).Draw(t, "keyprimary") == 0 {
+			// the compiler makes a primary key required; declare it so
+			f.Type.KeyPrimary = true
+			g.cls("key-entity:primary")
+		}
 		if !objectOnly {
 			switch rapid.IntRange(0, 5).Draw(t, "presence") {
 			case 0:
@@ -656,6 +694,9 @@ func (g *gen) fields(n, depth int, objectOnly bool) []*Field {
 				}
 			}
 			f.Style = rapid.IntRange(0, 2).Draw(t, "presencestyle")
+		}
+		if f.Type.KeyPrimary {
+			f.Required, f.Optional = true, false
 		}
 		// flattened inline objects: keep JSON names unique in the parent
 		if f.Type.Flatten && f.Type.InlineObject != nil {
@@ -794,6 +835,25 @@ func (g *gen) shadow(f *Field, taken map[string]bool, objectOnly bool) *Field {
 }
 
 var httpMethods = []string{"GET", "POST", "PUT", "PATCH", "DELETE"}
+var methodVerbs = []string{"Get", "List", "Create", "Update", "Delete", "Run", "Check"}
+var topicVerbs = []string{"Post", "Send", "Notify", "Sync"}
+
+// derivedStem hands out, once each and half of the time, the stem of a user type
+// of the current package that is named <stem>Request / Response / Message.
+func (g *gen) derivedStem(a, b string) string {
+	for i, d := range g.derived[g.curPkg.Name] {
+		if d[0] == "" || (d[1] != a && d[1] != b) {
+			continue
+		}
+		if !rapid.Bool().Draw(g.t, "usederived") {
+			return ""
+		}
+		g.derived[g.curPkg.Name][i][0] = ""
+		g.cls("type-named-like-derived-message")
+		return d[0]
+	}
+	return ""
+}
 
 func (g *gen) simpleFields(n int) []*Field {
 	taken := map[string]bool{}
@@ -817,7 +877,10 @@ func (g *gen) method(names map[string]bool) *Method {
 	t := g.t
 	var name string
 	for {
-		name = rapid.SampledFrom([]string{"Get", "List", "Create", "Update", "Delete", "Run", "Check"}).Draw(t, "mverb") + rapid.SampledFrom(typeWords).Draw(t, "mnoun")
+		name = rapid.SampledFrom(methodVerbs).Draw(t, "mverb") + rapid.SampledFrom(typeWords).Draw(t, "mnoun")
+		if stem := g.derivedStem("Request", "Response"); stem != "" {
+			name = stem
+		}
 		if !names[name] && !g.used[g.curPkg.Name+".service."+name] {
 			names[name] = true
 			g.used[g.curPkg.Name+".service."+name] = true
@@ -895,7 +958,10 @@ func (g *gen) topic() *Topic {
 	g.cls("topic:" + tp.Kind)
 	msgName := func() string {
 		for {
-			n := rapid.SampledFrom([]string{"Post", "Send", "Notify", "Sync"}).Draw(t, "tverb") + rapid.SampledFrom(typeWords).Draw(t, "tnoun")
+			n := rapid.SampledFrom(topicVerbs).Draw(t, "tverb") + rapid.SampledFrom(typeWords).Draw(t, "tnoun")
+			if stem := g.derivedStem("Message", "Message"); stem != "" {
+				n = stem
+			}
 			if !g.used[g.curPkg.Name+".topic."+n] {
 				g.used[g.curPkg.Name+".topic."+n] = true
 				return n
